@@ -131,6 +131,7 @@ type MapObj struct {
 	keys   []Value
 	vals   []Value
 	idx    map[string]int // concrete hashable keys -> position
+	symOrder bool         // iteration order is an environment choice (C02)
 	kt     types.Type
 }
 
